@@ -13,7 +13,6 @@ import t4eval
 import geomcheck
 
 NAME_RE = re.compile(r'^m([^_]+)(?:_(.*))?$')
-EXP_RE = re.compile(r'^([-+]?\d*\.\d*?)(0*)(?:[eEdD]([-+]?\d+)|([-+]\d+))$')
 
 
 def capture_convert(text, args=()):
@@ -45,16 +44,6 @@ def parse_name(name):
 
 # ---- narrow classes of the known defects ----------------------------------
 
-def cls_zeros_before_exponent(a, b):
-    ma, mb = EXP_RE.match(a), EXP_RE.match(b)
-    if not ma or not mb:
-        return False
-    expo_a = ma.group(3) if ma.group(3) is not None else ma.group(4)
-    expo_b = mb.group(3) if mb.group(3) is not None else mb.group(4)
-    return (ma.group(1) == mb.group(1) and ma.group(2) != mb.group(2)
-            and expo_a == expo_b)
-
-
 def cls_like_void(cell):
     '''LIKE n BUT MAT=0 without RHO.'''
     but = cell.get('but') or {}
@@ -63,15 +52,7 @@ def cls_like_void(cell):
 
 
 def classify_split(spellings):
-    '''Class of a set of spellings of one number that got several names.'''
-    spellings = sorted(spellings)
-    pairs = [(a, b) for i, a in enumerate(spellings) for b in spellings[i + 1:]]
-    # spellings that normalise alike are not the cause
-    from t4_geom_convert.Kernel.Utils import normalize_float
-    pairs = [(a, b) for a, b in pairs
-             if normalize_float(a) != normalize_float(b)]
-    if pairs and all(cls_zeros_before_exponent(a, b) for a, b in pairs):
-        return 'trailing_zeros_before_exponent'
+    '''No spelling class is a known defect any more.'''
     return None
 
 
@@ -120,9 +101,6 @@ def check_file(deck, t4, rng, n_points=200, compositions=True):
         if compositions and name not in comp_names:
             tok = parse_name(name)
             cls = None
-            if tok and tok[0] == '0' and tok[1] is not None and any(
-                    cls_like_void(c) for c in deck['cells']):
-                cls = 'like_but_mat_void'
             failures.append({'kind': 'no-such-composition', 'cls': cls,
                              'why': f'GEOMCOMP line {name} has no COMPOSITION '
                                     f'of that name ({sorted(comp_names)})'})
@@ -176,8 +154,6 @@ def check_file(deck, t4, rng, n_points=200, compositions=True):
             stats['void'] += 1
             if name != 'm0':
                 cls = None
-                if cls_like_void(raw) and mat_tok == '0':
-                    cls = 'like_but_mat_void'
                 failures.append({'kind': 'void-not-m0', 'cls': cls,
                                  'why': where, 'point': list(p)})
             continue
